@@ -236,6 +236,12 @@ pub fn run_check(id: &str, tier: Tier) -> i32 {
             if parts.iter().all(|p| p.failure.is_none()) {
                 parts.push(run_engine(&crate::eng_raw::CatalogueClientEngine, &ctx, scale(tier, 60_000, 300_000)));
             }
+            // legal traffic is never penalised: two h2 endpoints running legal programs never accuse each other
+            for f in [Focus::Coop, Focus::Resets] {
+                if parts.iter().all(|p| p.failure.is_none()) {
+                    parts.push(run_engine(&PairEngine { focus: f }, &ctx, scale(tier, 10_000, 200_000)));
+                }
+            }
             assumptions.push("the catalogue rows (harness/src/eng_raw.rs) transcribe RFC 9113 correctly; only the class of reaction is demanded, never a specific code".into());
         }
         "C13" => {
@@ -274,6 +280,11 @@ pub fn run_check(id: &str, tier: Tier) -> i32 {
         }
         "C14" => {
             parts.push(run_engine(&AcksEngine, &ctx, scale(tier, 60_000, 300_000)));
+            if parts.iter().all(|p| p.failure.is_none()) {
+                // local settings against the peer (h2 <-> h2): changed values only after the peer's acknowledgement,
+                // unchanged values stay in force across later SETTINGS frames
+                parts.push(run_engine(&runner::Reattributed { inner: PairEngine { focus: Focus::Coop }, from: "C09", to: "C14", label: "local-settings", only: "legal-exchange-accused" }, &ctx, scale(tier, 12_000, 200_000)));
+            }
             assumptions.push("acknowledgement order is demanded per kind (PING acks among themselves, SETTINGS acks among themselves)".into());
         }
         "C15" => {
@@ -289,6 +300,11 @@ pub fn run_check(id: &str, tier: Tier) -> i32 {
             parts.push(run_engine(&WriteEngine, &ctx, scale(tier, 40_000, 1_000_000)));
             if parts.iter().all(|p| p.failure.is_none()) {
                 parts.push(run_engine(&ReadEngine, &ctx, scale(tier, 60_000, 2_000_000)));
+            }
+            if parts.iter().all(|p| p.failure.is_none()) {
+                // the receive limit in force on a live connection: frames within the advertised SETTINGS_MAX_FRAME_SIZE are
+                // parsed, also after later SETTINGS frames (h2 <-> h2, a FRAME_SIZE_ERROR accusation is the symptom)
+                parts.push(run_engine(&runner::Reattributed { inner: PairEngine { focus: Focus::Coop }, from: "C09", to: "C12", label: "frame-size", only: "FRAME_SIZE_ERROR" }, &ctx, scale(tier, 16_000, 200_000)));
             }
             assumptions.push("refmodel::wire implements RFC 9113 §4/§6 framing (self-tested by round trip; must parse every byte h2 emits)".into());
             assumptions.push("only zero-valued padding is generated on the read side (a receiver MAY reject non-zero padding)".into());
